@@ -75,19 +75,25 @@ func (k okind) isVec() bool     { return k == kVecU || k == kVecI }
 
 // number of value variants per operand kind (index `arg` of the instruction)
 //
-//	bigint : 0, 1, -1, t-1, t, 2^70            uint64 : 0, 1, t-1, 2^63, 2^64-1
-//	int64  : -1, MinInt64, -t-1                int    : 5, -3
+//	bigint : 0, 1, -1, t-1, t, 2^70, (t+3)/2, -(t-1)/2      uint64 : 0, 1, t-1, 2^63, 2^64-1, (t+3)/2, t-t/8
+//	int64  : -1, MinInt64, -t-1, -(t-1)/2, -t/3            int    : 5, -3, -t/3
+//
+// (t+3)/2, -(t-1)/2, t-t/8, -t/3 are the scalars whose centred representative mod t is negative with a magnitude
+// of the order of t: the evaluator centres scalars before multiplying, and a magnitude above one of the chain's
+// primes (parameter sets with t larger than some q_i) takes the reduction of a negative multi-residue scalar through
+// its wrap-around case.
+//
 //	[]uint64 / []int64 : short (3 entries), full (all slots, distinct), extreme (values >= t / negative extremes)
 func variants(k okind) int {
 	switch k {
 	case kBig:
-		return 6
+		return 8
 	case kU64:
-		return 5
+		return 7
 	case kI64:
-		return 3
+		return 5
 	case kInt:
-		return 2
+		return 3
 	case kVecU, kVecI:
 		return 3
 	}
@@ -193,7 +199,7 @@ func wideAlphabet(srcs []int) []instr {
 // scale, degree-2 ciphertext, plaintext of another scale, hostile scalar, signed vector), destination forms
 // round-robin including the stale receiver; used for the length-3 programs of the quick tier.
 func miniAlphabet() []instr {
-	rep := map[okind]int{kBig: 5, kVecI: 2}
+	rep := map[okind]int{kBig: 7 /*-(t-1)/2*/, kVecI: 2}
 	var a []instr
 	n := 0
 	for op := opAdd; op <= opMulRelinSI; op++ {
@@ -223,7 +229,7 @@ func miniAlphabet() []instr {
 // the destination forms distributed round-robin, op0 = r0; all unary instructions on r0, r1 and r3; the
 // products that make the other registers evolve. Used for the inner steps of longer programs.
 func coreAlphabet() []instr {
-	rep := map[okind]int{kBig: 5 /*2^70*/, kU64: 4 /*2^64-1*/, kI64: 1 /*MinInt64*/, kInt: 1 /*-3*/, kVecU: 2, kVecI: 2}
+	rep := map[okind]int{kBig: 6 /*(t+3)/2: centred -(t-3)/2*/, kU64: 4 /*2^64-1*/, kI64: 1 /*MinInt64*/, kInt: 2 /*-t/3*/, kVecU: 2, kVecI: 2}
 	var a []instr
 	n := 0
 	for op := opAdd; op <= opMulRelinSI; op++ {
@@ -255,6 +261,7 @@ func coreAlphabet() []instr {
 		instr{opMulSI, 2, kCtOther, 0, dNew}, instr{opMul, 2, kPtHigh, 0, dInPlace}, instr{opMulThenAdd, 2, kCtOther, 0, dAccB},
 		instr{opRescale, 1, kNone, 0, dStale}, instr{opRelinearize, 3, kNone, 0, dStale}, instr{opMatchScales, 2, kNone, 0, dPartner3},
 		instr{opAdd, 0, kCtDeg2, 0, dStale}, instr{opSub, 0, kCtLow, 0, dStale}, instr{opMul, 0, kBig, 2, dStale},
+		instr{opMul, 0, kBig, 5, dNew}, instr{opMulThenAdd, 0, kI64, 3, dAccA}, instr{opMulRelin, 0, kU64, 5, dInPlace},
 	)
 	return a
 }
@@ -262,11 +269,11 @@ func coreAlphabet() []instr {
 // scalar / vector values ------------------------------------------------------------------------
 
 func u64Value(v int, t uint64) uint64 {
-	return []uint64{0, 1, t - 1, 1 << 63, math.MaxUint64}[v]
+	return []uint64{0, 1, t - 1, 1 << 63, math.MaxUint64, (t + 3) / 2, t - t/8}[v]
 }
 
 func i64Value(v int, t uint64) int64 {
-	return []int64{-1, math.MinInt64, -int64(t) - 1}[v]
+	return []int64{-1, math.MinInt64, -int64(t) - 1, -int64((t - 1) / 2), -int64(t / 3)}[v]
 }
 
-func intValue(v int) int { return []int{5, -3}[v] }
+func intValue(v int, t uint64) int { return []int{5, -3, -int(t / 3)}[v] }
